@@ -491,7 +491,11 @@ Section Total.
         rewrite Hi, Ho in E. destruct reduced as [[| |]|], bl, br; try contradiction; exact E. }
       destruct (mapM2_matmul_total _ _ Hio) as (prods & Hp). rewrite Hp. cbn [bind].
       destruct (mapM2_matmul_structs K keqb keqb_eq kmul _ _ _ Hp Wal War Pl Pr) as (Wp & Pp & Ip & Op).
-      destruct (mapM2_matmul_pa _ _ _ (D - 2) Hp Al Ar ltac:(lia) ltac:(lia)) as (Ap & Dp & Lp).
+      assert (Ol : omax ll <= D - 2) by (clear - Dl; lia).
+      assert (Or : omax lr <= D - 2) by (clear - Dr; lia).
+      destruct (mapM2_matmul_pa _ _ _ (D - 2) Hp Al Ar Ol Or) as (Ap & Dp & Lp).
+      assert (Hw2 : S (S (omax prods)) <= D) by (clear - Dp Dl; lia).
+      assert (Lp' : List.length prods = nleaves tdl) by (clear - Lp Ll; lia).
       assert (Hne : prods <> []).
       { intros ->. cbn in Lp. rewrite <- Lp in Nl. discriminate. }
       assert (Hnew : exists new,
@@ -502,20 +506,20 @@ Section Total.
       { destruct reduced as [b|].
         - exists (Block fresh b tdl prods).
           assert (Hmk : mk_block b tdl prods = Ok (Block fresh b tdl prods)).
-          { apply mk_block_total; [lia|exact Hne|].
+          { apply mk_block_total; [exact Lp'|exact Hne|].
             destruct b, bl, br; try contradiction; try exact I; [now rewrite Op|now rewrite Ip]. }
           split; [exact Hmk|]. destruct (mk_block_ok K _ _ _ _ Hmk Wp) as [_ Wn].
-          split; [exact Wn|]. split; [exact Pp|]. split; [exact Ap|]. rewrite weight_block. lia.
+          split; [exact Wn|]. split; [exact Pp|]. split; [exact Ap|]. rewrite weight_block. exact Hw2.
         - exists (AddOp fresh prods). destruct prods as [|p0 pr] eqn:Ep; [congruence|]. rewrite <- Ep in *.
-          split; [reflexivity|]. split; [|split; [exact Pp|split; [exact Ap|rewrite weight_add; lia]]].
+          split; [reflexivity|]. split; [|split; [exact Pp|split; [exact Ap|rewrite weight_add; exact Hw2]]].
           rewrite wfo_add, Wp, andb_true_r. unfold sum_ok. rewrite Ip, Op.
           destruct bl, br; try contradiction. rewrite Kl, Kr. rewrite Ep. reflexivity. }
       destruct Hnew as (new & -> & Wn & Pn & An & Dn). cbn [bind].
       destruct (Hrr new Wn Pn An) as [(red & -> & Ared & Wred & _)|(-> & HF)]; cbn [bind].
       - right; left. exists [red]. split; [reflexivity|]. split.
-        + constructor; [|constructor]. split; [exact Ared|lia].
-        + left. cbn; lia.
-      - right; right. split; [reflexivity|lia].
+        + constructor; [|constructor]. split; [exact Ared|clear - Wred Dn; lia].
+        + left. cbn [List.length]. apply le_n.
+      - right; right. split; [reflexivity|clear - HF Dn; lia].
     Qed.
 
     Ltac out_none := left; reflexivity.
@@ -571,19 +575,19 @@ Section Total.
       - apply andb_true_iff in Hc as [Hcl Hcr].
         destruct (inv_block l BRow Al Hcl) as (il & tdl & ll & ->).
         destruct (inv_block r BDiag Ar Hcr) as (ir & tdr & lr & ->).
-        apply (block_rule_spec (Some BRow)); auto. exact I.
+        apply (block_rule_spec (Some BRow)); auto.
       - apply andb_true_iff in Hc as [Hcl Hcr].
         destruct (inv_block l BDiag Al Hcl) as (il & tdl & ll & ->).
         destruct (inv_block r BCol Ar Hcr) as (ir & tdr & lr & ->).
-        apply (block_rule_spec (Some BCol)); auto. exact I.
+        apply (block_rule_spec (Some BCol)); auto.
       - apply andb_true_iff in Hc as [Hcl Hcr].
         destruct (inv_block l BDiag Al Hcl) as (il & tdl & ll & ->).
         destruct (inv_block r BDiag Ar Hcr) as (ir & tdr & lr & ->).
-        apply (block_rule_spec (Some BDiag)); auto. exact I.
+        apply (block_rule_spec (Some BDiag)); auto.
       - apply andb_true_iff in Hc as [Hcl Hcr].
         destruct (inv_block l BRow Al Hcl) as (il & tdl & ll & ->).
         destruct (inv_block r BCol Ar Hcr) as (ir & tdr & lr & ->).
-        apply (block_rule_spec None); auto. exact I.
+        apply (block_rule_spec None); auto.
       - (* IndexTransposeRule *)
         apply andb_true_iff in Hc as [Hcl Hcr].
         destruct (inv_index l Al Hcl) as (i1 & si1 & so1 & u & ix & -> & _).
@@ -616,3 +620,403 @@ Section Total.
       - right; right. auto.
     Qed.
   End Rules.
+
+  (* ---------- the potential of the while loop ---------- *)
+  Definition cnt (p : op -> bool) (l : list op) : nat := List.length (filter p l).
+  (* number of pairs (rotation-like operator, HWP further right) *)
+  Fixpoint inv (l : list op) : nat :=
+    match l with [] => 0 | a :: r => (if rotlike a then cnt ishwp r else 0) + inv r end.
+  Definition cube (n : nat) : nat := n * n * n.
+  Definition phi (ops : list op) (index : nat) : nat :=
+    4 * cube (List.length ops) + 2 * inv ops + (List.length ops - index).
+
+  Lemma cnt_app p a b : cnt p (a ++ b) = cnt p a + cnt p b.
+  Proof. unfold cnt. now rewrite filter_app, app_length. Qed.
+  Lemma cnt_le p l : cnt p l <= List.length l.
+  Proof. unfold cnt. induction l as [|a r IH]; cbn [filter List.length]; [lia|]. destruct (p a); cbn [List.length]; lia. Qed.
+  Lemma cnt_cons p a l : cnt p (a :: l) = (if p a then 1 else 0) + cnt p l.
+  Proof. unfold cnt. cbn [filter]. destruct (p a); reflexivity. Qed.
+  Lemma inv_app a b : inv (a ++ b) = inv a + inv b + cnt rotlike a * cnt ishwp b.
+  Proof.
+    induction a as [|x a IH]; cbn [app inv]; [unfold cnt; cbn; lia|].
+    rewrite IH, cnt_app, cnt_cons. destruct (rotlike x); lia.
+  Qed.
+  Lemma inv_le l : inv l <= List.length l * List.length l.
+  Proof.
+    induction l as [|a r IH]; cbn [inv List.length]; [lia|].
+    pose proof (cnt_le ishwp r). destruct (rotlike a); lia.
+  Qed.
+  Lemma inv_swap pre post l r l' : rotlike l = true -> ishwp r = true -> rotlike l' = true ->
+    inv (pre ++ [r; l'] ++ post) + 1 = inv (pre ++ [l; r] ++ post).
+  Proof.
+    intros Rl Hr Rl'. destruct (hwp_facts r Hr) as (_ & _ & Rr).
+    destruct (rot_facts l Rl) as (_ & _ & Hl). destruct (rot_facts l' Rl') as (_ & _ & Hl').
+    rewrite !inv_app, !cnt_app. cbn [inv]. rewrite !cnt_cons.
+    change (cnt ishwp []) with 0. change (cnt rotlike []) with 0.
+    rewrite Rl, Hr, Rl', Rr, Hl, Hl'. lia.
+  Qed.
+  Lemma cube_step n m : m < n -> 4 * cube m + 2 * (m * m) + m + 1 <= 4 * cube n.
+  Proof.
+    intros H. assert (Hc : cube (S m) <= cube n).
+    { unfold cube. apply Nat.mul_le_mono; [apply Nat.mul_le_mono|]; lia. }
+    unfold cube in *. lia.
+  Qed.
+  Lemma phi_small x j n : List.length x < n -> phi x j < 4 * cube n.
+  Proof.
+    intros H. unfold phi. pose proof (inv_le x). pose proof (cube_step _ _ H). lia.
+  Qed.
+  Lemma phi_scan_fuel x j (ops0 : list op) : List.length x <= List.length ops0 -> phi x j < scan_fuel ops0.
+  Proof.
+    intros H. unfold scan_fuel. pose proof (phi_small x j (S (List.length ops0)) ltac:(lia)) as H1.
+    unfold cube in H1. lia.
+  Qed.
+
+  Lemma filter_split_length (p : op -> bool) l :
+    List.length (filter p l) + List.length (filter (fun e => negb (p e)) l) = List.length l.
+  Proof. induction l as [|a r IH]; cbn [filter List.length]; [reflexivity|]. destruct (p a); cbn [negb List.length]; lia. Qed.
+  Lemma identity_rule_length (l : list op) : List.length (identity_rule l) <= List.length l.
+  Proof.
+    unfold identity_rule. induction l as [|a r IH]; cbn [filter List.length]; [lia|].
+    destruct (negb _); cbn [List.length]; lia.
+  Qed.
+  Lemma homothety_rule_length l : List.length (homothety_rule l) <= List.length l.
+  Proof.
+    unfold Algebra.homothety_rule. destruct l as [|a [|b r]]; try lia.
+    set (ops := a :: b :: r). destruct (Nat.eqb _ 0) eqn:E0; [lia|]. apply Nat.eqb_neq in E0.
+    match goal with |- context [if ?c then ops else _] => destruct c end; [lia|].
+    pose proof (filter_split_length (@is_homoth K) ops) as Hs.
+    destruct (Nat.leb _ _); [cbn [List.length]|rewrite app_length; cbn [List.length]]; lia.
+  Qed.
+  Lemma Forall_filter' (P : op -> Prop) p l : Forall P l -> Forall P (filter p l).
+  Proof. rewrite !Forall_forall. intros H e He. apply filter_In in He as [He _]. auto. Qed.
+  Lemma homothety_rule_pelt D l : 1 <= D -> Forall (pelt D) l -> Forall (pelt D) (homothety_rule l).
+  Proof.
+    intros HD H. unfold Algebra.homothety_rule. destruct l as [|a [|b r]]; try exact H.
+    destruct (Nat.eqb _ 0); [exact H|].
+    match goal with |- context [if ?c then a :: b :: r else _] => destruct c end; [exact H|].
+    assert (Hh : forall k s, pelt D (Homoth fresh k s)) by (intros; split; [reflexivity|exact HD]).
+    destruct (Nat.leb _ _).
+    - constructor; [apply Hh|now apply Forall_filter'].
+    - apply Forall_app. split; [now apply Forall_filter'|]. constructor; [apply Hh|constructor].
+  Qed.
+
+  (* ---------- the scan ---------- *)
+  Section Scan.
+    Variable rr : op -> result op.
+    Variables D F : nat.
+    Hypothesis Hkeeps : keeps rr.
+    Hypothesis Hrr : forall e, wfo e = true -> prims_ok e -> params_ok e ->
+      (exists e', rr e = Ok e' /\ params_ok e' /\ weight e' <= weight e /\ od e' <= od e) \/
+      (rr e = Err OutOfFuel /\ F < weight e).
+    Hypothesis HD : 1 <= D.
+    Variable order : list rule_id.
+
+    Lemma scan_spec : forall fuel ops index si so,
+      typed ops si so -> Forall (pelt D) ops ->
+      (exists res, scan rr fuel order ops index = Ok res /\ typed res si so /\ Forall (pelt D) res) \/
+      (scan rr fuel order ops index = Err OutOfFuel /\ (F < D \/ fuel <= phi ops index)).
+    Proof.
+      induction fuel as [|fuel IH]; intros ops index si so T Hall.
+      { right. split; [reflexivity|right; lia]. }
+      cbn [Algebra.scan]. destruct (Nat.ltb (S index) (List.length ops)) eqn:Hlt; [|left; eauto].
+      apply Nat.ltb_lt in Hlt.
+      destruct (nth_error ops index) as [l|] eqn:El; [|apply nth_error_None in El; lia].
+      destruct (nth_error ops (S index)) as [r|] eqn:Er; [|apply nth_error_None in Er; lia].
+      pose proof (nth_error_split K _ _ _ _ El Er) as Hs.
+      assert (Hpre : List.length (firstn index ops) = index) by (apply firstn_length_le; lia).
+      remember (firstn index ops) as pre eqn:Epre. remember (skipn (index + 2) ops) as post eqn:Epost.
+      clear Epre Epost El Er.
+      assert (Hn : List.length ops = index + 2 + List.length post).
+      { rewrite Hs, !app_length. cbn [List.length]. lia. }
+      pose proof T as T'. rewrite Hs in T'.
+      apply typed_app_inv in T' as (s2 & T2 & TA). apply typed_app_inv in T2 as (s1 & TB & TP).
+      pose proof TP as (Wl & Pl & Ol & Wr & Pr & Or & Is).
+      pose proof Hall as Hall'. rewrite Hs in Hall'.
+      apply Forall_app in Hall' as [HallA Hall']. apply Forall_app in Hall' as [HallP HallB].
+      pose proof (Forall_inv HallP) as Hl. pose proof (Forall_inv (Forall_inv_tail HallP)) as Hr.
+      destruct (fires_spec rr D F Hrr order l r Wl Wr Pl Pr (eq_sym Or) Hl Hr)
+        as [Hf|[(new & Hf & Hnew & Hshape)|(Hf & HF)]]; rewrite Hf; cbn [bind].
+      - (* no rule fires: advance *)
+        destruct (IH ops (S index) si so T Hall) as [Hok|(Hoof & Hb)]; [left; exact Hok|].
+        right. split; [exact Hoof|]. destruct Hb as [Hb|Hb]; [left; exact Hb|right].
+        unfold phi in *. clear - Hb Hlt. lia.
+      - (* a rule fires *)
+        pose proof (fires_typed K keqb keqb_eq kmul rr Hkeeps order l r new s1 s2 Hf TP) as Tn.
+        apply (identity_rule_typed K) in Tn.
+        assert (Hn' : Forall (pelt D) (identity_rule new)) by (now apply Forall_filter').
+        set (new' := identity_rule new) in *.
+        assert (T1 : typed (pre ++ new' ++ post) si so).
+        { eapply typed_app; [|exact TA]. eapply typed_app; [exact TB|exact Tn]. }
+        assert (H1 : Forall (pelt D) (pre ++ new' ++ post)).
+        { apply Forall_app. split; [exact HallA|]. apply Forall_app. split; [exact Hn'|exact HallB]. }
+        destruct Hshape as [Hlen|(l' & -> & Rl & Hr' & Rl')].
+        + (* the chain gets shorter *)
+          assert (Hshort : List.length (pre ++ new' ++ post) < List.length ops).
+          { rewrite !app_length. pose proof (identity_rule_length new). fold new' in H. clear - H Hlen Hn Hpre. lia. }
+          assert (Hphi : 4 * cube (List.length ops) < phi ops index).
+          { unfold phi. clear - Hlt. lia. }
+          destruct (existsb (@is_homoth K) new').
+          * pose proof (homothety_rule_length (pre ++ new' ++ post)) as Hh.
+            destruct (IH (homothety_rule (pre ++ new' ++ post)) 0 si so
+                        (homothety_rule_typed K k1 kmul _ _ _ T1) (homothety_rule_pelt D _ HD H1))
+              as [Hok|(Hoof & Hb)]; [left; exact Hok|].
+            right. split; [exact Hoof|]. destruct Hb as [Hb|Hb]; [left; exact Hb|right].
+            pose proof (phi_small (homothety_rule (pre ++ new' ++ post)) 0 (List.length ops) ltac:(lia)) as Hp.
+            clear - Hb Hp Hphi. lia.
+          * destruct (IH (pre ++ new' ++ post) (pred index) si so T1 H1)
+              as [Hok|(Hoof & Hb)]; [left; exact Hok|].
+            right. split; [exact Hoof|]. destruct Hb as [Hb|Hb]; [left; exact Hb|right].
+            pose proof (phi_small (pre ++ new' ++ post) (pred index) (List.length ops) Hshort) as Hp.
+            clear - Hb Hp Hphi. lia.
+        + (* rotation . HWP -> HWP . rotation': same length, one inversion less *)
+          destruct (hwp_facts r Hr') as (Ir & Hor & _). destruct (rot_facts l' Rl') as (Il' & Hol' & _).
+          assert (Enew : new' = [r; l']).
+          { unfold new', identity_rule. cbn [filter]. now rewrite Ir, Il'. }
+          rewrite Enew in *. cbn [existsb]. rewrite Hor, Hol'. cbn [orb].
+          destruct (IH (pre ++ [r; l'] ++ post) (pred index) si so T1 H1)
+            as [Hok|(Hoof & Hb)]; [left; exact Hok|].
+          right. split; [exact Hoof|]. destruct Hb as [Hb|Hb]; [left; exact Hb|right].
+          pose proof (inv_swap pre post l r l' Rl Hr' Rl') as Hi. rewrite <- Hs in Hi.
+          assert (Hlen : List.length (pre ++ [r; l'] ++ post) = List.length ops).
+          { rewrite !app_length. cbn [List.length]. clear - Hn Hpre. lia. }
+          unfold phi in *. rewrite Hlen in Hb. clear - Hb Hi Hlt. lia.
+      - right. split; [reflexivity|left; exact HF].
+    Qed.
+
+    Lemma algebraic_spec ops si so : typed ops si so -> Forall (pelt D) ops ->
+      (exists res, algebraic_reduction rr (scan_fuel ops) order ops = Ok res /\
+                   typed res si so /\ Forall (pelt D) res) \/
+      (algebraic_reduction rr (scan_fuel ops) order ops = Err OutOfFuel /\ F < D).
+    Proof.
+      intros T Hall. unfold Algebra.algebraic_reduction.
+      destruct ops as [|a [|b rest]]; try (left; eauto; fail).
+      set (ops := a :: b :: rest) in *.
+      assert (Ts : typed (homothety_rule (identity_rule ops)) si so).
+      { apply (homothety_rule_typed K), (identity_rule_typed K), T. }
+      assert (Hs : Forall (pelt D) (homothety_rule (identity_rule ops))).
+      { apply homothety_rule_pelt; [exact HD|]. now apply Forall_filter'. }
+      assert (Hlen : List.length (homothety_rule (identity_rule ops)) <= List.length ops).
+      { pose proof (homothety_rule_length (identity_rule ops)). pose proof (identity_rule_length ops). lia. }
+      destruct (scan_spec (scan_fuel ops) _ 0 si so Ts Hs) as [(res & Hres & Tr & Hr)|(Hoof & Hb)].
+      - left. rewrite Hres. cbn [bind]. destruct res as [|c r].
+        + eexists; split; [reflexivity|]. split.
+          * cbn [ReduceStructsL.typed] in Tr. subst so.
+            destruct (typed_chain K _ _ _ (Ident fresh dummy_struct) T ltac:(discriminate)) as (_ & _ & _ & I & _).
+            cbn [ReduceStructsL.typed]. split; [reflexivity|]. split; [reflexivity|]. split; [exact I|symmetry; exact I].
+          * constructor; [|constructor]. split; [reflexivity|exact HD].
+        + eexists; split; [reflexivity|]. split; [exact Tr|exact Hr].
+      - right. rewrite Hoof. cbn [bind]. split; [reflexivity|]. destruct Hb as [Hb|Hb]; [exact Hb|].
+        pose proof (phi_scan_fuel (homothety_rule (identity_rule ops)) 0 ops Hlen). lia.
+    Qed.
+  End Scan.
+
+  (* ---------- reduce() ---------- *)
+  (* the outcome of reducing e with fuel f: a well-typed operator that is not heavier, or
+     fuel exhaustion, and this only if f < weight e *)
+  Definition rres (f : nat) (e : op) (R : result op) : Prop :=
+    (exists e', R = Ok e' /\ params_ok e' /\ weight e' <= weight e /\ od e' <= od e) \/
+    (R = Err OutOfFuel /\ f < weight e).
+  Definition rspec (f : nat) (rr : op -> result op) : Prop :=
+    forall e, wfo e = true -> prims_ok e -> params_ok e -> rres f e (rr e).
+
+  Lemma wmax_cons a l : wmax (a :: l) = Nat.max (weight a) (wmax l).
+  Proof. reflexivity. Qed.
+  Lemma omax_cons a l : omax (a :: l) = Nat.max (od a) (omax l).
+  Proof. reflexivity. Qed.
+  Lemma wmax_le_S_omax l : wmax l <= S (omax l).
+  Proof.
+    induction l as [|a r IH]; [unfold wmax, omax; cbn; lia|]. rewrite wmax_cons, omax_cons.
+    pose proof (weight_le_S_od a). lia.
+  Qed.
+
+  Lemma mapM_spec f rr : rspec f rr -> forall l, allwf l = true -> allpk l = true -> allpa l = true ->
+    (exists l', mapM rr l = Ok l' /\ allpa l' = true /\ wmax l' <= wmax l /\ omax l' <= omax l) \/
+    (mapM rr l = Err OutOfFuel /\ f < wmax l).
+  Proof.
+    intros Hrr. induction l as [|a r IH]; intros W P A; cbn [mapM].
+    - left. eexists; split; [reflexivity|]. repeat split; lia.
+    - cbn [BuildL.allwf allpk allpa] in W, P, A.
+      apply andb_true_iff in W as [Wa W]. apply andb_true_iff in P as [Pa P]. apply andb_true_iff in A as [Aa A].
+      rewrite wmax_cons, omax_cons.
+      destruct (Hrr a Wa Pa Aa) as [(a' & -> & Aa' & Wa' & Oa')|(-> & HF)]; cbn [bind].
+      + destruct (IH W P A) as [(r' & -> & Ar' & Wr' & Or')|(-> & HF)]; cbn [bind].
+        * left. eexists; split; [reflexivity|]. cbn [allpa]. unfold params_ok in Aa'. rewrite Aa', Ar'.
+          rewrite wmax_cons, omax_cons. repeat split; lia.
+        * right. split; [reflexivity|lia].
+      + right. split; [reflexivity|lia].
+  Qed.
+
+  Lemma rres_self f e : params_ok e -> rres f e (Ok e).
+  Proof. intros A. left. exists e. repeat split; auto. Qed.
+  Lemma rres_ident f e s : 1 <= od e -> rres f e (Ok (Ident fresh s)).
+  Proof.
+    intros H. left. eexists; split; [reflexivity|]. split; [reflexivity|]. cbn [weight od].
+    pose proof (od_le_weight e). lia.
+  Qed.
+
+  Theorem reduce_main order : forall f, rspec f (reduce f order).
+  Proof.
+    induction f as [|f IH]; intros e W P A.
+    { right. split; [reflexivity|apply weight_pos]. }
+    pose proof (reduce_keeps K keqb keqb_eq k1 kmul f order) as Hkeeps.
+    destruct e as [i c si so p|i w e0|i s|i k s|i l|i l|i b td l].
+    - assert (Hs : forall R, R = Ok (Prim i c si so p) -> rres (S f) (Prim i c si so p) R)
+        by (intros R ->; now apply rres_self).
+      assert (Hi : forall s, rres (S f) (Prim i c si so p) (Ok (Ident fresh s)))
+        by (intros; apply rres_ident; cbn [od weight]; lia).
+      cbn [Algebra.reduce]. destruct c; try (apply Hs; reflexivity).
+      + destruct p; try (apply Hs; reflexivity). destruct (indexed_axes ix); [apply Hi|apply Hs; reflexivity].
+      + destruct (struct_eqb so si); [apply Hi|apply Hs; reflexivity].
+      + destruct (struct_eqb so si); [apply Hi|apply Hs; reflexivity].
+    - now apply rres_self.
+    - now apply rres_self.
+    - now apply rres_self.
+    - (* composition *)
+      rewrite (wfo_comp K) in W. apply andb_true_iff in W as [W Wa]. apply andb_true_iff in W as [Wn Wc].
+      unfold prims_ok in P. rewrite pk_comp in P. unfold params_ok in A. rewrite pa_comp in A.
+      assert (Hne : l <> []) by (destruct l; [discriminate|discriminate]).
+      cbn [Algebra.reduce].
+      destruct (mapM_spec f _ IH l Wa P A) as [(ops & Hops & Aops & Wops & Oops)|(Hoof & HF)].
+      2:{ rewrite Hoof. cbn [bind]. right. split; [reflexivity|]. rewrite weight_comp. lia. }
+      rewrite Hops. cbn [bind].
+      pose proof (chain_typed K l (Ident fresh dummy_struct) Hne Wc Wa P) as T.
+      rewrite <- (in_struct_comp K i l _ Hne), <- (out_struct_comp K i l _ Hne) in T.
+      pose proof (mapM_typed K _ Hkeeps _ _ _ _ Hops T) as T1.
+      assert (HD : 1 <= wmax l).
+      { destruct l as [|a l]; [congruence|]. rewrite wmax_cons. pose proof (weight_pos a). lia. }
+      assert (Hall : Forall (pelt (wmax l)) ops).
+      { apply Forall_forall. intros x Hx. split.
+        - apply allpa_Forall in Aops. rewrite Forall_forall in Aops. now apply Aops.
+        - pose proof (wmax_ge ops x Hx). lia. }
+      destruct (algebraic_spec (reduce f order) (wmax l) f Hkeeps IH HD order ops _ _ T1 Hall)
+        as [(res & Hres & Tr & Hr)|(Hoof & HF)].
+      2:{ rewrite Hoof. cbn [bind]. right. split; [reflexivity|]. rewrite weight_comp. lia. }
+      rewrite Hres. cbn [bind]. destruct res as [|x [|y r]].
+      + apply rres_ident. rewrite od_comp. exact HD.
+      + destruct (Forall_inv Hr) as [Ax Wx]. left. exists x. split; [reflexivity|]. split; [exact Ax|].
+        rewrite weight_comp, od_comp. pose proof (od_le_weight x). lia.
+      + left. eexists; split; [reflexivity|].
+        assert (Hw : wmax (x :: y :: r) <= wmax l).
+        { apply wmax_le. eapply Forall_impl; [|exact Hr]. intros z [_ Hz]. exact Hz. }
+        split; [|rewrite !weight_comp, !od_comp; lia].
+        unfold params_ok. rewrite pa_comp. apply allpa_Forall.
+        eapply Forall_impl; [|exact Hr]. intros z [Hz _]. exact Hz.
+    - (* sum *)
+      rewrite (wfo_add K) in W. apply andb_true_iff in W as [W Wa].
+      unfold prims_ok in P. rewrite pk_add in P. unfold params_ok in A. rewrite pa_add in A.
+      cbn [Algebra.reduce]. pose proof (wmax_le_S_omax l) as Hwo.
+      destruct (mapM_spec f _ IH l Wa P A) as [(ops & Hops & Aops & Wops & Oops)|(Hoof & HF)].
+      2:{ rewrite Hoof. cbn [bind]. right. split; [reflexivity|]. rewrite weight_add. lia. }
+      rewrite Hops. cbn [bind].
+      assert (Hgen : rres (S f) (AddOp i l) (Ok (AddOp fresh ops))).
+      { left. eexists; split; [reflexivity|]. split; [exact Aops|]. cbn [od]. rewrite !weight_add. lia. }
+      destruct ops as [|x [|y r]]; try exact Hgen.
+      left. exists x. split; [reflexivity|]. cbn [allpa] in Aops. rewrite andb_true_r in Aops.
+      split; [exact Aops|]. rewrite wmax_cons in Wops. cbn [od]. rewrite weight_add.
+      pose proof (od_le_weight x). lia.
+    - (* block containers *)
+      rewrite (wfo_block K) in W. apply andb_true_iff in W as [W Wa].
+      apply andb_true_iff in W as [W Kl]. apply andb_true_iff in W as [Nl Ll]. apply Nat.eqb_eq in Ll.
+      unfold prims_ok in P. rewrite pk_block in P. unfold params_ok in A. rewrite pa_block in A.
+      cbn [Algebra.reduce]. pose proof (wmax_le_S_omax l) as Hwo.
+      destruct (mapM_spec f _ IH l Wa P A) as [(ops & Hops & Aops & Wops & Oops)|(Hoof & HF)].
+      2:{ rewrite Hoof. cbn [bind]. right. split; [reflexivity|]. rewrite weight_block. lia. }
+      rewrite Hops. cbn [bind].
+      destruct (mapM_pres K _ Hkeeps _ _ Hops Wa P) as (W' & P' & I' & O').
+      pose proof (map_eq_length _ _ _ _ _ I') as Hlen.
+      assert (Hmk : mk_block b td ops = Ok (Block fresh b td ops)).
+      { apply mk_block_total; [lia| |].
+        - intros ->. cbn in Hlen. rewrite <- Hlen in Nl. discriminate.
+        - destruct b; try exact I; [now rewrite O'|now rewrite I']. }
+      rewrite Hmk. cbn [bind].
+      assert (Hgen : rres (S f) (Block i b td l) (Ok (Block fresh b td ops))).
+      { left. eexists; split; [reflexivity|]. split; [exact Aops|]. cbn [od]. rewrite !weight_block. lia. }
+      destruct b; try exact Hgen. destruct (forallb _ ops); [|exact Hgen].
+      apply rres_ident. cbn [od]. rewrite weight_block. lia.
+  Qed.
+
+  (* ---------- the theorems ---------- *)
+  Definition fuel_for (e : op) : nat := weight e.
+
+  (* (1) the only error reduce() can return on a well-typed operator is fuel exhaustion *)
+  Theorem reduce_no_exception order fuel e : wfo e = true -> prims_ok e -> params_ok e ->
+    (exists e', reduce fuel order e = Ok e') \/ reduce fuel order e = Err OutOfFuel.
+  Proof.
+    intros W P A. destruct (reduce_main order fuel e W P A) as [(e' & H & _)|(H & _)]; eauto.
+  Qed.
+  (* the typing of parameters is preserved; the result is not heavier *)
+  Theorem reduce_params order fuel e e' : wfo e = true -> prims_ok e -> params_ok e ->
+    reduce fuel order e = Ok e' -> params_ok e' /\ weight e' <= weight e.
+  Proof.
+    intros W P A H. destruct (reduce_main order fuel e W P A) as [(e2 & H2 & A2 & W2 & _)|(H2 & _)]; [|congruence].
+    rewrite H in H2. inversion H2; subst. auto.
+  Qed.
+  (* (2) fuel >= weight e is enough *)
+  Theorem reduce_total_fuel order fuel e : wfo e = true -> prims_ok e -> params_ok e ->
+    fuel_for e <= fuel -> exists e', reduce fuel order e = Ok e'.
+  Proof.
+    intros W P A Hf. destruct (reduce_main order fuel e W P A) as [(e' & H & _)|(_ & H)]; [eauto|].
+    unfold fuel_for in Hf. lia.
+  Qed.
+  Theorem reduce_terminates order e : wfo e = true -> prims_ok e -> params_ok e ->
+    exists fuel, forall fuel', fuel <= fuel' -> reduce fuel' order e <> Err OutOfFuel.
+  Proof.
+    intros W P A. exists (fuel_for e). intros fuel' Hf.
+    destruct (reduce_total_fuel order fuel' e W P A Hf) as (e' & ->). discriminate.
+  Qed.
+  Theorem reduce_total order e : wfo e = true -> prims_ok e -> params_ok e ->
+    exists e', reduce (fuel_for e) order e = Ok e'.
+  Proof. intros W P A. apply reduce_total_fuel; auto. Qed.
+
+  (* the while loop alone: with a reduce() for the block rules that does not fail, the scan
+     returns within any fuel above the potential, in particular within scan_fuel *)
+  Theorem scan_terminates rr D order fuel ops index si so :
+    keeps rr ->
+    (forall e, wfo e = true -> prims_ok e -> params_ok e ->
+       exists e', rr e = Ok e' /\ params_ok e' /\ weight e' <= weight e /\ od e' <= od e) ->
+    1 <= D -> typed ops si so -> Forall (pelt D) ops -> phi ops index < fuel ->
+    exists res, scan rr fuel order ops index = Ok res /\ typed res si so /\ Forall (pelt D) res.
+  Proof.
+    intros Hk Hrr HD T Hall Hf.
+    assert (Hrr' : forall e, wfo e = true -> prims_ok e -> params_ok e ->
+      (exists e', rr e = Ok e' /\ params_ok e' /\ weight e' <= weight e /\ od e' <= od e) \/
+      (rr e = Err OutOfFuel /\ D < weight e)) by (intros e W P A; left; now apply Hrr).
+    destruct (scan_spec rr D D Hk Hrr' HD order fuel ops index si so T Hall) as [H|(_ & [H|H])]; [exact H|lia|lia].
+  Qed.
+  Theorem scan_fuel_enough (ops ops0 : list op) index :
+    List.length ops <= List.length ops0 -> phi ops index < scan_fuel ops0.
+  Proof. apply phi_scan_fuel. Qed.
+End Total.
+Arguments params_okb {K} e.
+Arguments params_ok {K} e.
+Arguments allpa {K} l.
+Arguments weight {K} e.
+Arguments fuel_for {K} e.
+Arguments od {K} e.
+Arguments pelt {K} D e.
+Arguments phi {K} ops index.
+Arguments inv {K} l.
+
+(* ---------- the executable instance used by the correspondence harness (Model/Exec.v) ---------- *)
+From Coq Require Qcanon.
+From Furax Require Model.Exec.
+Lemma exec_keqb_eq (a b : Exec.K) : Exec.keqb a b = true -> a = b.
+Proof. apply Qcanon.Qc_eq_bool_correct. Qed.
+(* what the harness can evaluate (vm_compute) on every encoded expression *)
+Definition reduce_readyb (e : Exec.xop) : bool :=
+  wfo e && prims_okb e && params_okb e && (weight e <=? Exec.alg_fuel).
+Theorem x_reduce_no_exception order (e : Exec.xop) : wfo e = true -> prims_ok e -> params_ok e ->
+  (exists e', Exec.x_reduce order e = Ok e') \/ Exec.x_reduce order e = Err OutOfFuel.
+Proof. apply (reduce_no_exception Exec.K Exec.keqb exec_keqb_eq). Qed.
+Theorem x_reduce_total order (e : Exec.xop) : reduce_readyb e = true ->
+  exists e', Exec.x_reduce order e = Ok e' /\ wfo e' = true /\ prims_ok e' /\ params_ok e' /\
+             in_struct e' = in_struct e /\ out_struct e' = out_struct e /\ weight e' <= weight e.
+Proof.
+  unfold reduce_readyb. intros H. apply andb_true_iff in H as [H Hw]. apply andb_true_iff in H as [H A].
+  apply andb_true_iff in H as [W P]. apply Nat.leb_le in Hw.
+  destruct (reduce_total_fuel Exec.K Exec.keqb exec_keqb_eq Exec.k1 Qcanon.Qcmult order Exec.alg_fuel e W P A Hw)
+    as (e' & He). exists e'. split; [exact He|].
+  destruct (reduce_structs Exec.K Exec.keqb exec_keqb_eq Exec.k1 Qcanon.Qcmult _ _ _ _ W P He) as (W' & P' & I' & O').
+  destruct (reduce_params Exec.K Exec.keqb exec_keqb_eq Exec.k1 Qcanon.Qcmult _ _ _ _ W P A He) as (A' & Hw').
+  repeat split; auto.
+Qed.
